@@ -310,7 +310,10 @@ def corpus_full():
     # hand-picked shapes that the corpora lack (credentials without a username, ports on non-special schemes, guarded paths, ...)
     out.update([b"foo://:secret@example.com/p", b"sc://user:pw@h:8/p?q#f", b"sc://h:1/", b"sc://:pw@h", b"file://1.2.3.4/C:/", b"foo:/bar", b"foo:/.//p?q#",
                 b"http://u:p@1.2.3.4:81/", b"https://:p@[::1]:444/?#", b"ws://u@a.b:80", b"sc:opaque path ?q#f", b"ftp://h:2121/a/b/../c", b"http://example.com:443/a",
-                b"wss://example.com:80/", b"sc://[::1]/p", b"file:///C:/x", b"foo://@h/", b"foo://h?", b"foo://h#"])
+                b"wss://example.com:80/", b"sc://[::1]/p", b"file:///C:/x", b"foo://@h/", b"foo://h?", b"foo://h#",
+                # legacy drive letters behind vanishing dot segments, in every position the path builders treat differently
+                b"file:///./C|/x", b"file:///tmp/../C|/x", b"../../C|/x", b"./C|/x", b"file:/.//C|", b"file:///%2e/C|/", b"file:///a/..//C|/", b"file://h/./C|/x",
+                b"file:C|/x", b"file:./C|", b"C|", b"/C|/../D|/x", b"file:///C|/../D|", b"http://h/./C|/x"])
     return sorted(out)
 
 
